@@ -69,6 +69,7 @@ type Contract struct {
 	Inline        bool
 	Strict        bool
 	Trusted       bool
+	AssumedFrame  bool // the modifies clauses are used by callers but not checked against this body (listed as an assumption)
 	Lemma         bool
 	Allocates     bool
 	SafetyProps   []string
@@ -267,6 +268,8 @@ func parseContractFile(path, pkgPath string) ([]*Contract, error) {
 			cur.Strict = true
 		case "trusted":
 			cur.Trusted = true
+		case "assumed-frame":
+			cur.AssumedFrame = true
 		case "abstract":
 			cur.Abstract = true
 		case "allocates":
